@@ -93,7 +93,11 @@ class _LocalDateTimeParseBucket(_ParseBucket[LocalDateTime]):
         if hour_24:
             if time != LocalTime.midnight:
                 return ParseResult._invalid_hour_24(text)
-            date = date.plus_days(1)
+            try:
+                date = date.plus_days(1)
+            except OverflowError:
+                # 24:00 on the last day of the calendar would be the start of a day beyond its range.
+                return ParseResult._field_value_out_of_range_post_parse(text, 24, "H", LocalDateTime)
 
         return ParseResult.for_value(date + time)
 
